@@ -138,7 +138,12 @@ pub fn run_case(ctx: &mut Ctx, case: &Value) {
     if got != want {
         ctx.report.diff("property", "parse_yaml", "parse_yaml:paths-differ", &c2, json!({"real": paths, "expected": want}));
     }
-    if model["ok"]["json"] != j || model["ok"]["paths"] != json!(paths) {
+    // the model lists the paths in one descendants-first order; the property asks for *an* order with which
+    // issuing succeeds (tried below with the real list), so the lists are compared as multisets
+    let mut model_paths: Vec<String> = model["ok"]["paths"].as_array().cloned().unwrap_or_default().iter().filter_map(|p| p.as_str().map(|s| s.to_string())).collect();
+    if json!(model_paths) != json!(paths) { ctx.report.bump("paths-in-other-order-than-model"); }
+    model_paths.sort();
+    if model["ok"]["json"] != j || model_paths != got {
         ctx.report.diff("correspondence", "parse_yaml", "parse_yaml:differs-from-model", &c2, json!({"real": {"json": j, "paths": paths}, "model": model}));
     }
     if !marks.is_empty() {
